@@ -14,7 +14,7 @@ PROP = {
             "small/large array, small/large map, function, nested large containers); every mutation attempt is followed by an input holding the bare name "
             "(read probe). 21 syntactic kinds of attempt (= and :=, ++/-- postfix and prefix, N[i]=v, N.k=v, del(N[i]), del(N.k), integer and list loop variable, "
             "named-function and lambda parameter, func N(){}, same-value writes, writes of a Cmp-equal value with another element type, self operations, writes through a copy/argument/element, del(N), del(N) then "
-            "rebinding) with 80 variants, in 9 contexts (top level, lambda call, named function, loop body, if, nested functions, loop in function, uncalled lambda). "
+            "rebinding) with 83 variants, in 9 contexts (top level, lambda call, named function, loop body, if, nested functions, loop in function, uncalled lambda). "
             "Families: every variant x context x type as a single attempt (plus a joined-input rendering); every ordered pair of kinds on every type; every ordered "
             "triple of the 14 core kinds on int/large array/large map (thorough: of all 21 kinds on all types, and every 4-sequence of the core kinds); random "
             "sequences of <= 3 (thorough <= 4) attempts with random variant, context, type, name and partition of the attempts over inputs (4 partitions incl. one "
